@@ -91,6 +91,11 @@ fn poll_common(id: u32, addr: usize, w: &mut World) -> bool {
         ));
     }
     let c = &mut w.children[id as usize];
+    if c.needs_poll {
+        let k = (c.needs_since, id);
+        w.owed_polls.remove(&k);
+    }
+    let c = &mut w.children[id as usize];
     c.needs_poll = false;
     c.needs_by_wake = false;
     for (p, o, d) in viol {
@@ -262,6 +267,7 @@ pub fn src_poll(id: u32, addr: usize, cx: &mut Context<'_>) -> Poll<Option<Tok>>
             c.needs_poll = true;
             c.needs_since = poll_no;
             c.credits += 1;
+            w.owed_polls.insert((poll_no, id));
             w.merge_items += 1;
             w.pulled_call += 1;
             Act::Item {
